@@ -1114,7 +1114,8 @@ def orc_bin(case):
                                 + (f' (in units of {scale:g}: {b.measurements[o, c, i] / scale})' if scale != 1.0 else '')
                                 + f'; the mean of the time points {[time[k] for k in members]} listed in the bin is {want}{again}')
             tw = sum(time[k] for k in members) / len(members)
-            if not _eq(b.time_descriptors['time'][i], tw):
+            # tolerance relative to the largest member (the mean of time points around 0 may cancel to 0 +- rounding)
+            if abs(float(b.time_descriptors['time'][i]) - tw) > 1e-9 * max(abs(time[k]) for k in members):
                 return f"bin {i} {members_t}: time label is {b.time_descriptors['time'][i]}, mean of its time points is {tw}{again}"
         if not np.array_equal(d.measurements, real) or d.measurements.dtype != real.dtype:
             return 'bin_time modified the measurements of its input'
@@ -1644,7 +1645,7 @@ def _sweeps(run, thorough):
         bases += [
             B('flat', (5, 3, 1), seed=41, mdtype='uint8', container='tuple', keep=True, twice=True),
             B('temporal', (4, 2, 3), seed=42, mdtype='int16', tm_extra=False, tmono=False, tunit=[1e3, 1e-3], keep=True),
-            B('temporal', (3, 3, 4), seed=43, scale=1e-26, tunit=[-2e-12, 1e-12], tm_extra=False, tmono=False, twice=True),
+            B('temporal', (3, 3, 4), seed=43, scale=1e-26, tunit=[3e-12, 1e-12], tm_extra=False, tmono=False, twice=True),
             B('temporal', (3, 2, 3), seed=44, vec=['obs', 'channel', 'time'], korder='rev', tmono=False, keep=True),
             B('flat', (4, 3, 1), seed=45, vec=['obs', 'channel'], container='tuple', argform='tuple', twice=True),
             B('temporal', (3, 2, 2), seed=46, mdtype='float32', scale=1e-12, ldtype='int16', argform='ndarray', keep=True, twice=True),
